@@ -326,6 +326,13 @@ func parseRun(args []string) error {
 				docrel = true
 			case 3:
 				from, typ = "SPDXRef-DOCUMENT", "DESCRIBES"
+			case 4:
+				// the document describes "nothing": no root element may come out of it
+				from, typ, to = "SPDXRef-DOCUMENT", "DESCRIBES", pick(r, []string{"NOASSERTION", "NONE"})
+				special = true
+			case 5:
+				from, to = pick(r, []string{"NOASSERTION", "NONE"}), "SPDXRef-"+pick(r, ids)
+				special = true
 			}
 			rel = append(rel, map[string]any{"spdxElementId": from, "relationshipType": typ, "relatedSpdxElement": to})
 		}
@@ -336,10 +343,17 @@ func parseRun(args []string) error {
 			doc["files"] = fl
 		}
 		doc["relationships"] = rel
+		if r.Intn(8) == 0 {
+			doc["documentDescribes"] = []any{pick(r, []string{"NOASSERTION", "NONE", "SPDXRef-" + ids[0]})}
+			special = true
+		}
 		emit("spdx", "spdx23", doc, map[string]any{"resolves": resolves, "inputkeys": len(ids), "inputunique": true, "ncomps": len(ids), "special": special, "docrel": docrel})
 	}
 	// the public identifier generator
-	seeds := [][]string{{}, {"auto"}, {"auto", "000000001"}, {"node", "x"}, {"a/b:c d"}, {"ünï✓"}, {""}, {"", ""}, {"auto", ""}, {"...---"}, {"x", "y", "z"}, {"auto", "auto"}, {"node"}, {"\x00\n"}, {strings.Repeat("long", 100)}}
+	seeds := [][]string{{}, {"auto"}, {"auto", "000000001"}, {"node", "x"}, {"a/b:c d"}, {"ünï✓"}, {""}, {"", ""}, {"auto", ""}, {"...---"}, {"x", "y", "z"}, {"auto", "auto"}, {"node"}, {"\x00\n"}, {strings.Repeat("long", 100)},
+		// separators next to each other (the replacements must not depend on the order they are tried in)
+		{"https://example.com/a b"}, {"a://b"}, {"a:/b"}, {"pkg:npm/@scope/name@1.0"}, {"C:\\dir\\file"}, {"a  b"}, {"x::y"}, {"//"}, {"a/:b /c"},
+		{"node", "https://example.com/x"}, {"auto", "git+ssh://host/repo.git"}}
 	// every printable ASCII character on its own and inside a word, and a few multi-byte runes
 	for c := 0x20; c < 0x7f; c++ {
 		seeds = append(seeds, []string{string(rune(c))}, []string{"node", "a" + string(rune(c)) + "b"})
@@ -372,7 +386,13 @@ func parseRun(args []string) error {
 		sid++
 		ev := map[string]any{"op": "IDGEN", "sid": sid, "seeds": s}
 		var a, b string
-		k, t := guarded(5*time.Second, func() { a, b = sbom.NewNodeIdentifier(s...), sbom.NewNodeIdentifier(s...) })
+		k, t := guarded(5*time.Second, func() {
+			a = sbom.NewNodeIdentifier(s...)
+			b = a
+			for i := 0; i < 16 && b == a; i++ { // reproducible: the first differing repetition is logged
+				b = sbom.NewNodeIdentifier(s...)
+			}
+		})
 		usable := false
 		for _, x := range s {
 			if x != "auto" && x != "node" && x != "" {
